@@ -24,6 +24,9 @@ pub struct PriceScenario {
     pub dates: Vec<NaiveDate>,
     /// commodities declared in the ledger (the others are only known through the events that mention them)
     pub declared: Vec<String>,
+    /// declared display formats (decimals): an implied exchange records the price of the residual
+    /// as rounded to them
+    pub formats: std::collections::BTreeMap<String, u32>,
 }
 
 const QTYS: &[(i128, u32)] = &[(1, 0), (2, 0), (10, 0), (3, 0), (5, 1), (100, 0), (4, 0), (25, 1)];
@@ -44,6 +47,12 @@ impl PriceScenario {
         for _ in 0..n_dates {
             day += chrono::Duration::days(1 + rng.range(0, 12));
             dates.push(day);
+        }
+        let mut formats: std::collections::BTreeMap<String, u32> = std::collections::BTreeMap::new();
+        for c in &commodities {
+            if rng.chance(1, 3) {
+                formats.insert(c.clone(), 2 + rng.below(3) as u32);
+            }
         }
         let n_events = 3 + rng.usize(10);
         let mut events = Vec::new();
@@ -79,7 +88,13 @@ impl PriceScenario {
                 price_db.push_str(&format!("P {} {} {} {}\n", d, x, q_text(rate).unwrap(), y));
                 events.push(Event { date, source: Source::PriceDb, x, qty_x: Q::ONE, y, qty_y: rate });
             } else {
-                let kind = rng.below(5);
+                let mut kind = rng.below(5);
+                // the two legs of an implied exchange as book-keeping sees them: rounded to the declared formats
+                let round = |q: Q, c: &str| formats.get(c).and_then(|p| q.round_half_even(*p)).unwrap_or(q);
+                let (iqty, itotal) = (round(qty, &x), round(total, &y));
+                if kind == 4 && (iqty.is_zero() || itotal.is_zero()) {
+                    kind = 0;
+                }
                 let head = format!("{} PRICE{}Q\n", d, k + 1);
                 let signed_qty = if neg { qty.neg() } else { qty };
                 let after = held.get(&x).copied().unwrap_or(Q::ZERO).add(signed_qty).unwrap();
@@ -114,7 +129,7 @@ impl PriceScenario {
                             q_text(total).unwrap(),
                             y
                         ),
-                        Event { date, source: Source::Ledger, x: x.clone(), qty_x: qty, y: y.clone(), qty_y: total },
+                        Event { date, source: Source::Ledger, x: x.clone(), qty_x: iqty, y: y.clone(), qty_y: itotal },
                     ),
                 };
                 form = ["cost-rate", "cost-total", "lot-rate", "lot-total", "implied"][kind as usize];
@@ -123,17 +138,32 @@ impl PriceScenario {
             }
             forms.push(form);
         }
-        let declared: Vec<String> = commodities.iter().filter(|_| rng.chance(1, 2)).cloned().collect();
+        let declared: Vec<String> = commodities.iter().filter(|c| formats.contains_key(*c) || rng.chance(1, 2)).cloned().collect();
+        // price-DB lines with a zero rate say nothing: they neither give a price nor take one away
+        if !price_db.is_empty() && rng.chance(1, 4) {
+            for _ in 0..1 + rng.usize(2) {
+                let (a, b) = (rng.usize(n_comm), rng.usize(n_comm));
+                if a != b {
+                    price_db.push_str(&format!("P {} {} 0 {}\n", rng.pick(&dates).format("%Y/%m/%d"), commodities[a], commodities[b]));
+                }
+            }
+        }
         // price-DB lines in random order (a date-sorted or arbitrarily ordered file is equally valid)
         let mut lines: Vec<&str> = price_db.lines().collect();
         rng.shuffle(&mut lines);
         let price_db: String = lines.iter().map(|l| format!("{}\n", l)).collect();
-        PriceScenario { commodities, events, forms, ledger_entries, price_db, dates, declared }
+        PriceScenario { commodities, events, forms, ledger_entries, price_db, dates, declared, formats }
     }
 
     /// `commodity X` declarations (so that every commodity is known even if only the price DB mentions it).
     pub fn declarations(&self) -> String {
-        self.declared.iter().map(|c| format!("commodity {}\n\n", c)).collect()
+        self.declared
+            .iter()
+            .map(|c| match self.formats.get(c) {
+                Some(p) => format!("commodity {}\n    format 1,000.{} {}\n\n", c, "0".repeat(*p as usize), c),
+                None => format!("commodity {}\n\n", c),
+            })
+            .collect()
     }
 
     pub fn ledger_text(&self) -> String {
